@@ -325,18 +325,39 @@ class VPureScheduler(_SchedBehaviour, PureScheduler):
         _late_attrs(self, spec)
 
 
-def build(spec, registry, top=True):
+def build(spec, registry, top=True, prelude=None):
     """instantiate the tree; registry maps id -> object"""
+    if top and spec.get('prelude'):
+        prelude = []
     objs = []
     for m in spec['members']:
         if m['kind'] == 'sched':
-            obj = build(m, registry, top=False)
+            obj = build(m, registry, top=False, prelude=prelude)
         else:
             obj = (VCoJob if m.get('cls') == 'coroutine' else VJob)(m)
             registry[m['id']] = obj
         objs.append(obj)
+    decoys = []
+    if prelude is not None:
+        # the graph is first installed with some requirements pointing at the wrong job,
+        # queried, then re-wired to the scenario's edges (link counts unchanged): the run
+        # must depend on the requirements as they are when it starts, not on anything
+        # computed earlier
+        preds = {}
+        for i, j in spec['edges']:
+            preds.setdefault(j, set()).add(i)
+        for i, j in spec['edges']:
+            wrong = [k for k in range(j) if k != i and k not in preds[j]]
+            if wrong and (i + j) % 2 == 0:
+                w = wrong[(i + j) % len(wrong)]
+                preds[j].add(w)
+                decoys.append((j, w, i))
+    rewired = {(j, i) for j, w, i in decoys}
     for i, j in spec['edges']:
-        objs[j].requires(objs[i])
+        if (j, i) not in rewired:
+            objs[j].requires(objs[i])
+    for j, w, i in decoys:
+        objs[j].requires(objs[w])
     cls = VPureScheduler if (top and spec.get('cls') == 'pure') else VScheduler
     ordered = [objs[i] for i in spec.get('order', range(len(objs)))]
     how = spec.get('build', 'ctor')
@@ -357,6 +378,21 @@ def build(spec, registry, top=True):
                 else:
                     sched.add(obj)
     registry[spec['id']] = sched
+    if prelude is not None:
+        prelude.append((sched, objs, decoys))
+    if top and prelude is not None:
+        for sch, _, _ in prelude:
+            for call in (sch.list, sch.check_cycles, lambda o=sch: list(o.exit_jobs()),
+                         lambda o=sch: list(o.successors_downstream(*o.jobs)),
+                         sch.dot_format):
+                try:
+                    call()
+                except Exception:
+                    pass
+        for sch, members, dec in prelude:
+            for j, w, i in dec:
+                members[j].requires(members[w], remove=True)
+                members[j].requires(members[i])
     return sched
 
 
